@@ -217,6 +217,20 @@ Theorem traceql_statement_tokens : forall s, pok QN (TqPieces.tq_pieces s) = tru
 Proof. exact TqPiecesProofs.tq_rendered_tokens. Qed.
 Print Assumptions traceql_statement_tokens.
 
+(* The property over TraceQL trees, for ALL values: replace the content of every StringVal node, of every matchRe expression and
+   of every sqlAttrValue name of a tree by anything (f; with f = "put the request string where the harmless marker was" this is
+   the tree for the request string: checks/c10.py verifies on the real trees, dumped by C11's harness, that the tree for the
+   hostile request IS tq_marker_subst of the tree for the marker) - the statement keeps its token skeleton, has exactly one
+   literal per value piece, and those literals decode to the new values.  No hypothesis on f. *)
+Theorem traceql_request_values_keep_statement_structure : forall f s, pok QN (TqPieces.tq_pieces s) = true ->
+  pok QN (TqPieces.tq_pieces (TqPieces.tq_subst_sel f s)) = true /\
+  skeleton (lex (TqSql.render (TqPieces.tq_subst_sel f s))) = skeleton (lex (TqSql.render s)) /\
+  lex (TqSql.render (TqPieces.tq_subst_sel f s)) = etoks QN (pm f (TqPieces.tq_pieces s)) /\
+  lits (lex (TqSql.render (TqPieces.tq_subst_sel f s))) = elits QN (pm f (TqPieces.tq_pieces s)) /\
+  rvalues (pm f (TqPieces.tq_pieces s)) = map f (rvalues (TqPieces.tq_pieces s)).
+Proof. exact TqPiecesProofs.tq_values_keep_structure. Qed.
+Print Assumptions traceql_request_values_keep_statement_structure.
+
 Example traceql_tree_example :
   let q := TqSql.Sel [] false [TqSql.Col (TqSql.Id "trace_id") ""; TqSql.GroupBitOr (TqSql.BitSet [TqSql.LOp TqSql.OEq [TqSql.Id "key"; TqSql.StrV "zqxmark"]]) "bsCond"]
              (Some (TqSql.Id "tempo_traces_attrs_gin")) [] None
